@@ -115,6 +115,22 @@ def generated_cases(count, seed, max_comp=6):
     no component above max_comp stems (so all_dot_brackets stays cheap)."""
     rng = random.Random(seed * 104729 + 14)
     cases = []
+    if count > 0:
+        # one structure beyond max_comp: eight two-pair helices, each crossing the next few (one component of 8
+        # regions: the enumeration behind all_dot_brackets is at its largest affordable size, 40320 orders, and
+        # several hundred distinct notations come out of it)
+        db = "((..[[..{{..<<..AA..))..BB..]]..CC..}}..DD..>>..aa..bb..cc..dd"
+        closing = {")": "(", "]": "[", "}": "{", ">": "<", "a": "A", "b": "B", "c": "C", "d": "D"}
+        stacks, pairs = {}, []
+        for q, ch in enumerate(db, 1):
+            if ch in closing.values():
+                stacks.setdefault(ch, []).append(q)
+            elif ch in closing:
+                pairs.append([stacks[closing[ch]].pop(), q])
+        pairs.sort()
+        p = len(db)
+        cases.append({"kind": "bp", "name": f"g{seed}-0", "n": p, "pairs": pairs,
+                      "seq": [LETTERS[i % len(LETTERS)] for i in range(p)], "ladder": 2, "components": components(pairs)})
     while len(cases) < count:
         k = rng.choice([3, 3, 3, 4, 4, 5])
         n, pairs = knotted_structure(rng, k, rng.randint(0, 3))
